@@ -168,13 +168,14 @@ def _work(args):
         agg = Aggregate()
         isolate = getattr(eng, "isolate_runs", False)
         for i in range(start, stop):
+            faulthandler.dump_traceback_later(600, exit=True)  # re-armed for every run (a run is limited to run_timeout())
             if stop_at is not None and time.time() > stop_at:
                 # wall budget used up: the rest of the chunk is not executed (which indices ran is reported
                 # in the evidence; run i itself never depends on the budget)
                 agg.counters["chunks_cut_by_budget"] = agg.counters.get("chunks_cut_by_budget", 0) + 1
                 break
             try:
-                out = _isolated(eng, i) if isolate else eng.run_one(i)
+                out = _isolated(eng, i, make_engine, eparams) if isolate else eng.run_one(i)
             except HarnessError as e:
                 agg.harness_errors.append("run %d: %s" % (i, e))
                 continue
@@ -188,12 +189,56 @@ def _work(args):
         faulthandler.cancel_dump_traceback_later()
 
 
-def _isolated(eng, index):
+def run_timeout():
+    """Wall-clock limit of one isolated run. A run takes milliseconds (a real child process: a second);
+    the simulated terminal already turns endless reading or writing into a verdict, so what is left for
+    this limit is code that spins or blocks without any I/O."""
+    try:
+        return float(os.environ.get("VERIF_RUN_TIMEOUT_S", "") or 45.0)
+    except ValueError:
+        return 45.0
+
+
+def _hang_outcome(eng, index, make_engine, eparams, limit):
+    trace = {"engine": getattr(eng, "name", None) or type(eng).__name__,
+             "hang": {"index": index, "make": [make_engine.__module__, make_engine.__name__], "eparams": eparams,
+                      "limit_s": limit}}
+    msg = ("run %d (%s %r) did not finish within %.0f s of wall time (such a run takes milliseconds): the code under "
+           "test neither returned nor read nor wrote; the child process was killed. The replay file names the run by "
+           "its engine parameters and index and re-executes it under the same limit" %
+           (index, make_engine.__module__.split(".")[-1], eparams, limit))
+    return {"trace": trace, "digest": runner23.digest(["hang", make_engine.__module__, repr(sorted(eparams.items())), index]),
+            "violations": [violation(eng.prop, "liveness", "run-hangs", msg)],
+            "counters": {"runs": 1, "runs_killed_at_wall_limit": 1}, "nontrivial": False, "steps": 0,
+            "sample": {"hang_at_run_index": index}}
+
+
+def execute_trace(engine, trace):
+    """engine.execute(trace), or -- for a run that was killed at its wall limit -- the run itself again."""
+    hang = trace.get("hang")
+    if not hang:
+        return engine.execute(trace)
+    import importlib
+
+    make = getattr(importlib.import_module(hang["make"][0]), hang["make"][1])
+    eng = make(**hang["eparams"])
+    out = _isolated(eng, hang["index"], make, hang["eparams"], limit=hang.get("limit_s"))
+    if not out["trace"].get("hang"):
+        # it finished this time: whatever it found is reported, the recorded hang is not reproduced
+        out = dict(out)
+        out["trace"] = trace
+    return out
+
+
+def _isolated(eng, index, make_engine=None, eparams=None, limit=None):
     """One run in a forked child of the worker: whatever state the code under test leaves behind in
     the process dies with the child, so run i really is the same whatever ran before it (and a
     violation that needs such left-over state can only come from a run that creates it itself)."""
     import pickle
+    import select
+    import signal
 
+    limit = limit or run_timeout()
     r, w = os.pipe()
     pid = os.fork()
     if pid == 0:
@@ -216,12 +261,32 @@ def _isolated(eng, index):
             os._exit(code)
     os.close(w)
     chunks = []
-    with os.fdopen(r, "rb") as f:
+    t_end = time.time() + limit
+    hung = False
+    try:
         while True:
-            b = f.read(1 << 16)
+            left = t_end - time.time()
+            if left <= 0:
+                hung = True
+                break
+            ready, _, _ = select.select([r], [], [], min(left, 5.0))
+            if not ready:
+                continue
+            b = os.read(r, 1 << 16)
             if not b:
                 break
             chunks.append(b)
+    finally:
+        os.close(r)
+    if hung:
+        try:
+            os.kill(pid, signal.SIGKILL)
+        except OSError:
+            pass
+        os.waitpid(pid, 0)
+        if make_engine is None:
+            raise HarnessError("isolated run %d did not finish within %.0f s" % (index, limit))
+        return _hang_outcome(eng, index, make_engine, eparams, limit)
     os.waitpid(pid, 0)
     if not chunks:
         raise HarnessError("isolated run %d died without a result" % index)
@@ -451,12 +516,12 @@ def report(prop, engine, agg, shrink_budget=20.0, max_shrunk=6):
         remaining = hard_deadline() - time.time()
         todo = max(1, len(agg.violations) - k)
         budget_now = max(0.0, min(shrink_budget, (remaining - 60.0) / todo - 5.0))
-        if n_viol < max_shrunk and budget_now > 1.0:
+        if n_viol < max_shrunk and budget_now > 1.0 and not trace.get("hang"):
             try:
                 trace, tests = shrink(engine, trace, sig, budget_now)
             except Exception:
                 harness.append("shrinker failed for %s: %s" % (sig, traceback.format_exc()))
-        out = engine.execute(trace)
+        out = execute_trace(engine, trace)
         vs = [x for x in out["violations"] if x["sig"] == sig]
         if not vs:
             harness.append("violation %s did not reproduce in-process after shrinking" % sig)
